@@ -115,6 +115,53 @@ PROPERTIES = {
                       T + "_continue", T + "_continue_on_generator"],
         "assumptions": [A_ENV_GEN, "context hooks and value providers do not trip (and swallow) the runaway-recursion guard of the scheduler they run under"],
     },
+    "C12": {
+        "functions": ["tools.DeduplicateDecorator.asynq", "tools.DeduplicateDecorator.asynq.callback", "tools.DeduplicateDecorator.dirty"],
+        "structural": ["dedup-key-thread"],
+        "assumptions": ["the wrapped function and the key getter are unknown code (env.callstar / opaque deterministic key); argument normalisation "
+                        "(qcore.caching.get_args_tuple over args + kwonlyargs) is exercised by the bounded stand-in, not proved"],
+        "not_proved": ["key normalisation across spellings (bounded)", "history quantifier: invariant + per-call contract (meta-theorem)"],
+    },
+    "C13": {
+        "functions": ["tools.alru_cache.decorator.wrapper", "tools.alazy_constant.decorator.wrapper", "tools.alazy_constant.decorator.dirty"],
+        "assumptions": ["qcore.caching.LRUCache get/set contract (hit returns stored value, miss raises KeyError) is assumed; eviction order and key "
+                        "construction are exercised by the bounded reference-cache stand-in, not proved"],
+        "not_proved": ["LRU eviction, per-instance caches (acached_per_instance), ttl arithmetic: bounded stand-in only"],
+    },
+    "C14": {
+        "functions": ["tools.aretry.decorator.wrapper"],
+        "structural": ["one-yield-per-helper"],
+        "assumptions": ["built-in map/filter/sorted/max/min/compress/zip semantics are not axiomatised in this round: equality with the built-ins is "
+                        "covered by the bounded stand-in helpers_match_builtins (labelled bounded)"],
+        "not_proved": ["equality with the built-in counterparts (bounded stand-in only)", "aretry attempt count formula (bounded)"],
+    },
+    "C16": {
+        "functions": [S + "reset"],
+        "structural": ["ownership-inventory", "thread-local-roots", "dedup-key-thread"],
+        "assumptions": ["CPython's GIL makes single dict/list operations atomic; threading.local / ContextVar behave as documented; user objects are not shared between threads",
+                        "isolation under all OS-thread interleavings follows from the ownership discipline by the separation argument (prose); the interleavings themselves are only smoke-tested (bounded)"],
+        "not_proved": ["the literal 'all OS thread interleavings' quantifier"],
+    },
+    "C17": {
+        "functions": ["generator." + n for n in ["Value.__init__", "Value.__repr__", "_AsyncGenerator.__init__", "_AsyncGenerator.__iter__",
+                                                  "_AsyncGenerator.__repr__", "_AsyncGenerator._get_one_value", "_AsyncGenerator.send",
+                                                  "_AsyncGenerator._send_inner", "list_of_generator", "take_first"]],
+        "assumptions": ["the user's generator body and the scheduler's resumption of `yield` are environment contracts (env.usergen.send, env.yield, env.iter.next)"],
+        "not_proved": ["'exactly the Values in program order' needs a model of the user body: bounded stand-in generators_deliver_values"],
+    },
+    "C18": {
+        "functions": ["debug.filter_traceback", "generator._AsyncGenerator.__repr__", "generator.Value.__repr__"],
+        "assumptions": ["traceback lines are opaque; `pattern in line` is an uninterpreted containment predicate", "repr/str of user payloads, qcore.inspection / safe_str, traceback.*, pygments are total"],
+        "not_proved": ["traceback gluing across task levels (CPython traceback objects): bounded stand-in", "totality of the remaining __str__/dump methods: bounded stand-in diagnostics_total_and_stack"],
+    },
+    "C20": {
+        "functions": [S + "_continue_with_batch", S + "_flush_batch", S + "_continue_with_task", S + "_handle_async_task", S + "_execute",
+                      S + "_schedule_batch", B + "BatchBase.flush", F + "FutureBase._computed", T + "_continue_on_generator",
+                      T + "__init__", B + "BatchItemBase.__init__", T + "_accept_yield_result", T + "_queue_exit", T + "_accept_error"],
+        "structural": ["option-erasure", "carith-clock-fields"],
+        "assumptions": ["options are not toggled while tasks are alive", "debug.write/str/repr/dump are total and touch only stdout/stderr (C18)",
+                        "ENABLE_COMPLEX_ASSERTIONS guards an assertion of a documented precondition"],
+    },
     "C10": {
         "functions": FUT + [T + "_queue_exit", T + "_queue_throw_error", T + "_accept_error", T + "_computed"],
         "assumptions": ["qcore.events.EventHook.safe_trigger calls every handler once then re-raises the first error (contract written from its shipped source)",
